@@ -17,7 +17,7 @@ macro_rules! keys_inhabited {
 //@ fns: (harness-side document builder)
 //@ bounds: n/a
 #[kani::proof]
-#[kani::unwind(66)]
+#[kani::unwind(5)]
 fn c00_generator_inhabited() {
     inhabited!(0, 1, 2, 3, 4, 5, 6, 7, 8, 9, 10);
     keys_inhabited!((0, 1), (1, 1), (1, 2), (2, 1), (2, 2));
